@@ -9,6 +9,7 @@ import (
 	"sort"
 	"strings"
 	"time"
+	"unicode/utf8"
 )
 
 // Obligation is one decided rule instance.
@@ -228,7 +229,11 @@ func (r *Run) Finish(verifDir string, start time.Time) int {
 func oneLine(s string) string {
 	s = strings.ReplaceAll(s, "\n", " ")
 	if len(s) > 600 {
-		s = s[:600] + "…"
+		cut := 600
+		for cut > 0 && !utf8.RuneStart(s[cut]) {
+			cut--
+		}
+		s = s[:cut] + "…"
 	}
 	return s
 }
